@@ -23,6 +23,7 @@ import (
 	"os"
 	"os/exec"
 	"sort"
+	"strconv"
 	"strings"
 	"sync"
 	"syscall"
@@ -494,6 +495,11 @@ func main() {
 		childScenario(os.Args[2], os.Args[3])
 		return
 	}
+	if len(os.Args) > 2 && os.Args[1] == "child-chanstress" {
+		n, _ := strconv.Atoi(os.Args[2])
+		chanStressChild(n)
+		return
+	}
 	a := lib.ParseArgs()
 	log.SetOutput(ioutil.Discard)
 	res := lib.NewResult("C08", a.Seed, a.Tier)
@@ -596,6 +602,9 @@ func main() {
 			res.Sample(c)
 		}
 		res.Cases = append(res.Cases, c)
+	}
+	if a.Replay == "" {
+		chanStress(res, a.Pick(300, 3000))
 	}
 	res.Evaluations = len(cases)
 	if _, err := lib.WriteShards(a.Out, "From Relay Require Import Base.Prelude Model.ChanMap Model.HubFaults Corr.C08.", "case", coq, res.ShardSize); err != nil {
